@@ -272,6 +272,9 @@ func (r *Report) writeEvidence(ps *propSummary, viol int) {
 		for _, a := range ob.All {
 			solverTime += a.timeS
 		}
+		if strings.HasPrefix(ob.Res.output, "DISAGREEMENT") {
+			crossDisagree = append(crossDisagree, ob.ID+" "+strings.SplitN(ob.Res.output, "\n", 2)[0]+" (accepted: unsat by "+ob.Res.solver+")")
+		}
 		for _, x := range ob.Cross {
 			crossTotal[x[strings.Index(x, ":")+1:]]++
 			if strings.HasSuffix(x, ":unsat") {
